@@ -205,6 +205,46 @@ func unmarshalEq(a, b any, path string) string {
 	return ""
 }
 
+// findPath returns the route (element indices; -1 = "into the Condition's expression") from root to target.
+func findPath(root, target *TNode) []int {
+	if root == target {
+		return []int{}
+	}
+	for i, k := range root.Kids {
+		if p := findPath(k, target); p != nil {
+			return append([]int{i}, p...)
+		}
+	}
+	if root.Expr != nil {
+		if p := findPath(root.Expr, target); p != nil {
+			return append([]int{-1}, p...)
+		}
+	}
+	return nil
+}
+
+// liveAt follows a findPath route through the live structure.
+func liveAt(root stackage.Stack, path []int) (stackage.Stack, bool) {
+	var cur any = root
+	for _, i := range path {
+		if i == -1 {
+			cd, ok := stackage.ConvertCondition(cur)
+			if !ok {
+				return stackage.Stack{}, false
+			}
+			cur = cd.Expression()
+			continue
+		}
+		s, ok := stackage.ConvertStack(cur)
+		if !ok {
+			return stackage.Stack{}, false
+		}
+		cur, _ = s.Index(i)
+	}
+	s, ok := stackage.ConvertStack(cur)
+	return s, ok && s.IsInit()
+}
+
 func c04Tier(tier string) int {
 	if tier == "thorough" {
 		return 10000000
@@ -235,6 +275,22 @@ func c04Run(c *core.Ctx, idx int) {
 				n.Sym = []string{"&&", "||", "!", "und"}[r.Intn(4)]
 			}
 		})
+	}
+	if r.Chance(1, 12) {
+		// a wide stack somewhere (element counts well past the small-slice regime)
+		var stacks []*TNode
+		tree.Walk(func(n *TNode) {
+			if n.T == "stack" && n.Cap == 0 {
+				stacks = append(stacks, n)
+			}
+		})
+		if len(stacks) > 0 {
+			w := stacks[r.Intn(len(stacks))]
+			for i, n := 0, r.Range(14, 40); i < n; i++ {
+				w.Kids = append(w.Kids, &TNode{T: "leaf", Leaf: &LeafDesc{Tag: "int", I: int64(i)}})
+			}
+			c.Count("trees.with-wide-stack")
+		}
 	}
 	S := tree.BuildStack()
 	desc := map[string]any{"tree": tree}
@@ -301,6 +357,35 @@ func c04Run(c *core.Ctx, idx int) {
 		}
 		c.Count("round-trips")
 	}
+	// second phase: write to a stack somewhere INSIDE the original tree (through its own handle), then unmarshal the
+	// root again - the answer must follow the content, whatever was computed for the first answer
+	if idx%4 == 0 {
+		var nested []*TNode
+		tree.Walk(func(n *TNode) {
+			if n.T == "stack" && n != tree && n.Cap == 0 {
+				nested = append(nested, n)
+			}
+		})
+		if len(nested) > 0 {
+			target := nested[r.Intn(len(nested))]
+			path := findPath(tree, target)
+			if live, ok := liveAt(S, path); ok {
+				extra := &TNode{T: "leaf", Leaf: &LeafDesc{Tag: "str", S: "added-later"}}
+				live.Push(extra.Build())
+				target.Kids = append(target.Kids, extra)
+				u3, err3 := S.Unmarshal()
+				if err3 != nil {
+					c.Violatef("unmarshal-error", desc, "second Unmarshal returned %v", err3)
+					return
+				}
+				if d := shapeMatch(u3, refShape(tree), "u"); d != "" {
+					c.Violatef("unmarshal-stale", desc, "after a Push onto a nested stack, Unmarshal of the root differs from the new shape at %s; tree %s", d, tree.Brief())
+					return
+				}
+				c.Count("unmarshal-after-nested-write")
+			}
+		}
+	}
 	condStack := false
 	tree.Walk(func(n *TNode) {
 		if n.T == "cond" && n.Expr != nil && n.Expr.T == "stack" {
@@ -323,10 +408,10 @@ func init() {
 		Run:   c04Run,
 		Rule: "random trees of depth <= 4, width 0..4 over all five kinds (empty stacks, single-child chains, label-like strings as ordinary values), Conditions with built-in and user-defined operators whose expression is a primitive, a Stack or a Condition, primitive and nil leaves; a sixth of the trees carries capacity or case folding. " +
 			"Per tree: (a) Unmarshal equals the shape computed from the description (labels case-insensitive; a Condition-valued expression may be passed through or expanded); (b) Marshal(u...) and Marshal(u) on a zero Stack return nil and the reconstruction matches the description node by node through Kind/Len/Index/Keyword/Operator/Expression; " +
-			"(c) Unmarshal(reconstruction) deep-equals u; (d) without capacity/fold IsEqual holds in both directions. non-trivial = depth >= 2 with a Condition holding a Stack; distinct = tree description.",
+			"(c) Unmarshal(reconstruction) deep-equals u; (d) without capacity/fold IsEqual holds in both directions; (e) on every fourth tree a value is pushed onto a nested stack afterwards and Unmarshal of the root must show the new shape. One tree in twelve contains a stack of 14..44 elements. non-trivial = depth >= 2 with a Condition holding a Stack; distinct = tree description.",
 		Assumptions: []string{"(d) relies on the library's own comparator and is therefore an additional assertion only", "aliases are C12's subject; natives only here"},
 		Floors: func(string) map[string]int64 {
-			return map[string]int64{"round-trips": 20000, "trees.deep-with-condition-stack": 3000, "isequal-checked": 10000}
+			return map[string]int64{"round-trips": 20000, "trees.deep-with-condition-stack": 3000, "isequal-checked": 10000, "unmarshal-after-nested-write": 5000, "trees.with-wide-stack": 2000}
 		},
 	})
 }
